@@ -21,10 +21,21 @@
 (*            after it) are the "absence only when no node of positive     *)
 (*            weight is present" half of the Total clause, on a ring that  *)
 (*            has a past.  `drains` counts the returns to empty.           *)
+(*                                                                         *)
+(* Replica setting (constant Settings, a set of integers, {} = dimension   *)
+(* off: the driver creates the ring with NewConsistentHash / Base):        *)
+(*   when Settings # {} every history STARTS with [op |-> "new", set |-> s]*)
+(*   for an s \in Settings - the driver creates the ring with              *)
+(*   NewCustomConsistentHash(s, fn).  All settings of one run have the     *)
+(*   same BaseOf(s) = Base (ASSUME): settings below the minimum behave as  *)
+(*   the minimum, which is what the contract is then evaluated with.       *)
+(*   The "new" operation counts towards MaxOps.                            *)
 (***************************************************************************)
 EXTENDS ConsistentHash, Sequences, Json
 
-CONSTANTS MaxOps, Family
+CONSTANTS MaxOps, Family, Settings
+
+ASSUME \A s \in Settings : s \in Int /\ BaseOf(s) = Base
 
 VARIABLES hist, drains
 
@@ -44,7 +55,12 @@ GStep(o) ==
   /\ hist' = Append(hist, o)
   /\ drains' = drains + (IF Drains(mem, o) THEN 1 ELSE 0)
 
-GNext == \E o \in GOps : GStep(o)
+NewOps == {[op |-> "new", set |-> s] : s \in Settings}
+
+\* two plain disjuncts of \E over constant sets: TLC splits them into one action per operation, which keeps
+\* -simulate at one Emit per behaviour (it evaluates the invariant on every successor of the action it picked)
+GNext == \/ \E o \in GOps : (Settings # {} => hist # <<>>) /\ GStep(o)
+         \/ \E o \in NewOps : hist = <<>> /\ GStep(o)
 
 GSpec == GInit /\ [][GNext]_gvars
 
